@@ -87,6 +87,17 @@ REGISTRY = {
         'assumptions': ['payload bytes are 0..255', 'names are compared only when ASCII; rotation angles within float tolerance and away from gimbal lock (|pitch| < 1.4 rad)'],
         'trusted': ['modelled, not verified: bytes::Buf panic conditions, nalgebra euler conversions, UTF-8 lossy conversion, uuid::from_slice on 16 bytes'],
     },
+    'C20': {
+        'rule': 'real NetworkAuthority::{new,setup,on_tick,recv} on the emulated bus: both networks of contrib/etc/glonax.conf loaded by the real glonax::from_file into the server\'s real Config (#[path]) and started; 1.2k (quick) / 12k (thorough) generated configurations: all 256 own addresses, NAME field boundaries and random values, driver lists of 0..5 entries drawn from the 7 known and unknown (vendor, product) pairs with/without source-address override and timeout; '
+                'events: start-up claim, first cycle (delayed per-driver setup), requests for address claim / software id / time-date / foreign groups to own, other and global destinations (also with DLC < 3), another cycle; frames on the bus compared with the extracted model; C20 predicate (claim = J1939-81 bit layout, replies exactly when specified, setup requests from exactly the known entries in order with destination = unit and source = daemon/override) evaluated on the real frames; non-trivial = some frame was sent; distinct by case text',
+        'exhaustive': {'quick': False, 'thorough': False},
+        'level_text': 'Theorems C20_name_layout (the NAME bytes are the little-endian image of the J1939-81 field layout, all in-range fields), C20_name_roundtrip, C20_units (ANY driver list: the driven units are exactly the known entries, in order, with configured unit address and default/overridden source), C20_unknown_skipped, C20_setup_addressing, C20_responds (iff) and C20_factory_consistent (on the generated vendor/product tables) are proved about the Gallina authority model; tied to the real authority by differential execution incl. the shipped configuration.',
+        'level_note': 'TOML -> struct (toml/serde) is not modelled: it is exercised for real (generated TOML and the shipped file). The time/date payload is not compared. A kübler:encoder entry with a unit address outside 0x6A..0x6D panics in KueblerEncoder::new (known finding K02): such configurations are not generated. Trusted: kernel, extraction, drv.ml, harness, rs2v (tables, shipped file).',
+        'technique': 'Rocq proof (bit-layout arithmetic by lia, filter_map/induction over driver lists, vm_compute on generated tables) + differential execution on the emulated bus',
+        'explanation': 'seven theorems in Properties/C20.v',
+        'assumptions': ['NAME fields within their J1939-81 ranges', 'encoder entries use the four supported addresses'],
+        'trusted': ['modelled, not verified: j1939::NameBuilder/Name::to_bytes, protocol::request/address_claimed, toml/serde deserialisation, chrono time for the time/date reply'],
+    },
     'C17': {
         'rule': 'real Filter::matches (accept and reject policy): empty list, every single item over all 16 specified-field combinations x every hit/miss pattern against 68 identifiers covering PDU1/PDU2, priorities, addresses; 2- and 3-item lists sampled (30k quick / 400k thorough per policy) biased towards fully matching entries; '
                 'real CANSocket::send through the verif seam: the raw 16-byte can_frame datagram for every length 0..8 and id-bit class; real CANSocket::recv + ControlNetwork::recv on injected raw frames for every DLC 0..8 and can_id with bits 29/30/31 set or clear (2k quick / 20k thorough each); results vs extracted model, property predicates evaluated on the real outputs; non-trivial = non-empty filter or marshalling case; distinct by case text',
